@@ -5,7 +5,7 @@ CONSTANTS
   NP = 1
   R = 1
   MaxLog = 3
-  RestoreReplaces = TRUE
+  RestoreMode = "full"
   WireFirst = TRUE
 INVARIANTS Agree SnapOK
 CHECK_DEADLOCK FALSE
